@@ -6,8 +6,9 @@
    ([body]: AST -> tokens, [wf]: the trees expressible in BQL). *)
 From Coq Require Import ZArith NArith List Bool String.
 Import ListNotations.
-From Verif Require Import Model.Ast Model.Lexer Model.Parser Model.Printer Model.Spelling Proofs.ParserProofs
-  Proofs.LexerProofs.
+From Verif Require Import Model.Ast Model.Lexer Model.Parser Model.Printer Model.Spelling Model.Front
+  Proofs.ParserProofs Proofs.LexerProofs Proofs.FrontProofs.
+From Verif Require Model.Compile Model.Link.
 From Verif Require Model.Grammar Gen.Grammar.
 
 (* The grammar introspected from /repo on this run (tatsu.compile(bql.ebnf): rules, choices,
@@ -94,6 +95,27 @@ Print Assumptions C06_text_roundtrip_canonical.
 (* Not covered by the spelling relation (tested by the correspondence only): writing a decimal without its
    zero integer part (`.5` for `0.5`) -- the lexer then returns a different token (the printer always writes
    the integer part; the two differ only as a GROUP BY / ORDER BY column, where `0.5` is not accepted). *)
+
+(* From TEXT to result rows inside Coq (Model/Front.v): run_text = lex >>= parse >>= to_cstmt >>= Link.run_stmt
+   (compile >>= lower >>= exec of builder-C05's Model/Link.v).  [to_cstmt] maps the parser model's AST to the
+   compiler model's AST as harness/vf/c05.py serialises real ASTs; placeholder positions are the number of
+   placeholders to the left and the source text of a target is reconstructed from the printer (see Front.v).
+   Running the text of a printed statement, however spelled and spaced, is running the statement. *)
+Theorem C06_run_text_print : forall (sch : Compile.schema) (p : Compile.params) (dat : Link.data)
+                                    (s : stmt) (ss gs : list str) (g0 : str),
+  wf_stmt s = true -> lex_ok (print_stmt s) = true ->
+  Forall2 spell (print_stmt s) ss -> sep g0 -> seps_ok (print_stmt s) gs ->
+  run_text sch p dat (render_text g0 ss gs)
+  = match to_cstmt (stmt_erase s) with Some c => Link.run_stmt sch p dat c | None => None end.
+Proof. exact run_text_print. Qed.
+Print Assumptions C06_run_text_print.
+
+(* The front end loses nothing: statements with the same translation are the same statement (this covers names,
+   every literal form incl. date -> ordinal, clause structure and placeholder numbering). *)
+Theorem C06_to_cstmt_injective : forall (s1 s2 : stmt) (c : Compile.stmt),
+  to_cstmt s1 = Some c -> to_cstmt s2 = Some c -> s1 = s2.
+Proof. exact to_cstmt_inj. Qed.
+Print Assumptions C06_to_cstmt_injective.
 
 (* ---------------------------------------------------------------------- *)
 (* Examples: the hypotheses are satisfiable and the precedence chain
